@@ -688,7 +688,9 @@ func cmdCheck(args []string) int {
 		rp, ok := confirmAndMinimise(b, m, prop, tier, f)
 		if !ok {
 			fmt.Printf("verif: violation class %s (seed %d) did not reproduce on re-execution; reporting as tool trouble\n", f.viol.Class, f.seed)
-			exit = 2
+			if exit == 0 {
+				exit = 2
+			}
 			continue
 		}
 		if reported[rp.Violation.Class] {
@@ -708,7 +710,8 @@ func cmdCheck(args []string) int {
 		fmt.Printf("verif: %s seed=%d class=%s\n        %s\n", rp.Violation.Invariant, f.seed, rp.Violation.Class, strings.ReplaceAll(firstLines(rp.Violation.Detail, 12), "\n", "\n        "))
 		fmt.Printf("VIOLATION property=%s replay=%s\n", prop, path)
 		nviol++
-		if exit == 0 {
+		if exit == 0 || exit == 2 {
+			// a confirmed violation outranks another class that did not reproduce
 			exit = 1
 		}
 	}
